@@ -48,9 +48,7 @@ def _verify_one(job):
            "inlined": [], "externals": [], "assumed_contracts": [], "canary": None}
     try:
         fe = Frontend()
-        db = ContractDB(CONTRACTS)
-        for name, text in gen_sources or []:
-            db.load(name, text=text)
+        db = ContractDB.for_target(CONTRACTS, target, gen_sources or [])
         ver = Verifier(fe, db, timeout_ms)
         rep = ver.verify_function(target)
         ver.discharge(rep)
